@@ -75,8 +75,11 @@ func VerifPhaseFlavours() []verifphase.Flavour {
 				co.SetName(o.Name)
 				co.SetUID(types.UID(o.UID))
 				co.SetGeneration(1)
-				if o.PkgLabel != "" {
-					co.SetLabels(map[string]string{verifphase.PkgLabel: o.PkgLabel})
+				if l := o.Labels(); len(l) > 0 {
+					co.SetLabels(l)
+				}
+				if a := o.Annotations(); len(a) > 0 {
+					co.SetAnnotations(a)
 				}
 				return a.(controllers.PhaseObjectOwner)
 			},
@@ -87,6 +90,9 @@ func VerifPhaseFlavours() []verifphase.Flavour {
 					o.SetNamespace(ns)
 					o.SetName(p.Name)
 					o.SetUID(types.UID(p.UID))
+					if len(p.Labels) > 0 {
+						o.SetLabels(p.Labels)
+					}
 					var rp []corev1alpha1.RemotePhaseReference
 					for _, r := range p.Remotes {
 						rp = append(rp, corev1alpha1.RemotePhaseReference{Name: r[0], UID: types.UID(r[1])})
@@ -132,7 +138,13 @@ func TestVerifPhase(t *testing.T) {
 		return
 	}
 	for _, fl := range order {
-		for _, s := range verifphase.Table(fl) {
+		// abstract decision table, every row realised by several concrete objects that differ in
+		// everything the model claims to be irrelevant (labels, annotations, controller kind / identity ...)
+		for _, s := range verifphase.TableX(fl, r.Rng, r.Pick(4, 8)) {
+			run(s)
+		}
+		// controller realisation x instance / package label relation x collisionProtection x revision, exhaustive
+		for _, s := range verifphase.IrrelevanceTable(fl, r.Pick(0, 1) == 1) {
 			run(s)
 		}
 		for _, s := range verifphase.PreflightTable(fl) {
